@@ -1,6 +1,7 @@
 (** Props/C09.v — Balance locks: funds return to the owner exactly once, at
     expiry, unless burnt.  Model: Model/Balance.v; lemmas: Proofs/BalanceLock.v. *)
-From Verif Require Import Base.Prelude Model.Balance Proofs.BalanceSum Proofs.Balance Proofs.BalanceLock.
+From Verif Require Import Base.Prelude Model.Balance Proofs.BalanceSum Proofs.Balance Proofs.BalanceLock
+  Proofs.BalanceLife.
 Local Open Scope Z_scope.
 
 (** [lock] moves exactly [a] onto a fresh lock account that remembers its
@@ -88,6 +89,74 @@ Theorem C09_frame : forall c s o s' r ns l,
 Proof. exact bexec_frame. Qed.
 Print Assumptions C09_frame.
 
+(** *** The whole lifecycle, over histories.
+
+    [norefund l m]: no lock account refunds to [l] — true of a fresh address
+    (it holds in the empty ledger, is kept by every operation that does not
+    name [l], and by the [Lock] that creates [l]). *)
+Theorem C09_norefund_reachable : forall l,
+  norefund l (accts binit) /\
+  (forall s co, after_ok l co = true -> norefund l (accts s) -> norefund l (accts (fst (fst (bstep s co))))) /\
+  (forall c s d f a u, f <> l -> norefund l (accts s) ->
+     norefund l (accts (fst (fst (bstep s (c, Lock d f l a u)))))).
+Proof.
+  intros l. split; [apply norefund_empty|]. split.
+  - intros s co H HQ. apply norefund_step; auto.
+  - intros. apply lock_norefund; auto.
+Qed.
+Print Assumptions C09_norefund_reachable.
+
+(** Before expiry: after ANY history of ticks with epochs below [u], burns
+    (from [l] or elsewhere) and operations that do not name [l], by anybody,
+    the lock account holds exactly what was locked minus what was burnt from
+    it, expiry and owner intact — or a burn of everything deleted it. *)
+Theorem C09_lifecycle_before : forall l u f b ops s,
+  hash_len l = true -> u <> 0 -> norefund l (accts s) ->
+  accts s !! l = Some (mkAcc b u f) -> forallb (before_ok l u) ops = true ->
+  norefund l (accts (bruns s ops)) /\
+  (accts (bruns s ops) !! l = Some (mkAcc (b - burned l s ops) u f) \/
+   (accts (bruns s ops) !! l = None /\ burned l s ops = b)).
+Proof. exact life_before. Qed.
+Print Assumptions C09_lifecycle_before.
+
+(** At the first tick with [e >= u]: the lock account disappears and, when it
+    is the only due lock of [f], [f] receives exactly the remaining balance
+    (in general: the sum over all its due locks, [C09_tick_releases_all]). *)
+Theorem C09_release_exact : forall c s e s' r ns l b u f,
+  bexec c s (NewEpoch e) = Halt (s', r, ns) -> nochain e (accts s) ->
+  hash_len l = true -> accts s !! l = Some (mkAcc b u f) -> u <> 0 -> u <= e ->
+  (forall k, k <> l -> due e (accts s) k = true -> parent (get_acc (accts s) k) <> f) ->
+  accts s' !! l = None /\ balance_of s' f = balance_of s f + b /\ supply s' = supply s.
+Proof.
+  intros c s e s' r ns l b u f H Hnc Hl Hs Hu Hue Hone.
+  destruct (C09_tick_releases_all _ _ _ _ _ _ H Hnc) as (_ & Hsup & R1 & R2).
+  assert (Hd : due e (accts s) l = true).
+  { unfold due. rewrite (get_acc_some _ _ _ Hs), Hl. cbn [until]. destruct (u =? 0) eqn:E; [lia|].
+    replace (e >=? u) with true by lia. reflexivity. }
+  split; [apply R1; exact Hd|]. split; [|exact Hsup].
+  assert (Hf : due e (accts s) f = false).
+  { pose proof (Hnc l Hd) as Hp. rewrite (get_acc_some _ _ _ Hs) in Hp. exact Hp. }
+  unfold balance_of. rewrite (R2 f Hf). cbn [bal]. f_equal.
+  rewrite (paid_only e (accts s) (skeys (accts s)) f l).
+  - rewrite (get_acc_some _ _ _ Hs). reflexivity.
+  - apply NoDup_skeys.
+  - apply elem_of_skeys. eauto.
+  - exact Hd.
+  - rewrite (get_acc_some _ _ _ Hs). reflexivity.
+  - intros k _ Hk. apply Hone. exact Hk.
+Qed.
+Print Assumptions C09_release_exact.
+
+(** Afterwards: whatever ticks, burns and foreign operations follow, the
+    released (or burnt-out) lock account stays absent: nothing is ever paid
+    out of it again. *)
+Theorem C09_lifecycle_after : forall l ops s,
+  hash_len l = true -> norefund l (accts s) -> accts s !! l = None ->
+  forallb (after_ok l) ops = true ->
+  norefund l (accts (bruns s ops)) /\ accts (bruns s ops) !! l = None.
+Proof. exact life_after. Qed.
+Print Assumptions C09_lifecycle_after.
+
 (** Non-vacuity and a worked lifecycle: two locks expiring at the same tick,
     one partially burnt; an early tick changes nothing; the due tick returns
     exactly the remainders and removes both accounts; a later tick is inert. *)
@@ -106,10 +175,16 @@ Example C09_lifecycle_example :
       [4; 5]
   = [ ([700; 300; 200; 200], 4%nat); ([900; 500; 0; 0], 2%nat) ] /\
   (let s5 := fst (fst (bstep pre (al, NewEpoch 5))) in
-   fst (fst (bstep s5 (al, NewEpoch 6))) = s5).
+   fst (fst (bstep s5 (al, NewEpoch 6))) = s5) /\
+  (* the premises of the history theorems are met by this history *)
+  (let s3 := brun [ (al, Mint exA 1000 []); (al, Mint exB 500 []); (al, Lock [1%N] exA exL1 300 5) ] in
+   let hist := [ (al, Lock [2%N] exB exL2 200 5); (al, NewEpoch 3); (al, Burn exL1 100 []);
+                 (mkCtx [exB] false, Transfer exB exA 50); (al, NewEpoch 4) ] in
+   accts s3 !! exL1 = Some (mkAcc 300 5 exA) /\ forallb (before_ok exL1 5) hist = true /\
+   burned exL1 s3 hist = 100 /\ accts (bruns s3 hist) !! exL1 = Some (mkAcc 200 5 exA)).
 Proof.
   split; [apply nochainb_sound; vm_compute; reflexivity|].
-  vm_compute. auto.
+  vm_compute. repeat split; reflexivity.
 Qed.
 
 (** The finding F9 (recorded in KNOWN_FINDINGS.txt as C09/until-zero): a lock
